@@ -6,19 +6,38 @@ PROOF_NOTE = ("Trusted: Coq 8.16.1 kernel + vm_compute (no native_compute); no a
               "the hand-written Gallina model (coq/Model) and the assumed pandas/numpy primitive semantics (coq/Base/Series.v), tied to /repo's working tree only by the "
               "correspondence check (harness/: programs run on the implementation, on the model by coqc+vm_compute, and on an independent rational oracle); "
               "floats are compared exactly on dyadic data and with 1e-9 relative tolerance where stated; IEEE rounding, dtypes and pandas view semantics are not modelled.")
-CLAIMED = {
- "C01": ("proof", "arith_pointwise / negate_pointwise: for every ordered domain, every well-formed internal state (either or both internal forms), scalars on either side: both one-sided limits of the result equal the pointwise operation (None iff an argument is None or x/0). Correspondence: ~3k generated programs per quick run agree with the model and the oracle.", "5 (C01)"),
- "C04": ("proof", "rel_pointwise + rel_indicator + rel_result_minimal: relational results are the 0/1 indicator on the common domain, undefined exactly where an operand is, and are well-formed minimal step functions; follow-up operations are exercised by the correspondence programs.", "5 (C04)"),
- "C05": ("proof", "logic_pointwise + truth table + invert/make_boolean theorems, incl. the repaired scalar short-cuts (m | 1, m & 0).", "5 (C05)"),
+LEVELS = json.load(open(os.path.join(ROOT, "levels.json")))
+TEXT = {
+ "C01": "arith_pointwise / negate_pointwise: for every ordered domain, every well-formed internal state (either or both internal forms), scalars on either side: both one-sided limits of the result equal the pointwise operation (None iff an argument is None or x/0).",
+ "C02": "layer histories: model of scalar/vector layering on step changes (incl. the repaired cancel-to-step-free, NaN-receiver and values-only cases); theorems pending, decided so far by correspondence (model vs implementation) + rational oracle on 2-call exhaustive-scope samples and random histories.",
+ "C03": "limit_is_lim, lim_is_one_sided_limit (dense domains), limits coincide off step points, views_agree, changes_sum_to_values.",
+ "C04": "rel_pointwise + rel_indicator + rel_result_minimal; follow-up operations are exercised by the correspondence programs.",
+ "C05": "logic_pointwise + truth table + invert/make_boolean theorems, incl. the repaired scalar short-cuts.",
+ "C06": "clip/mask/where/isna/notna: model with bisect slicing and the {NaN,0} masker; theorems pending; correspondence + oracle.",
+ "C07": "fillna scalar / method / function: model incl. the repaired function filler; theorems pending; correspondence + oracle.",
+ "C08": "value_sums, integral, mean, var (through the percentile pipeline as the code does): theorems pending; correspondence + oracle (exact on dyadic data, 1e-9 otherwise).",
+ "C09": "ecdf, percentile, fractile, median, mode, hist, describe: theorems pending; correspondence + oracle on power-of-two totals (exact) and general totals (tolerant).",
+ "C10": "values_in_range/min/max with the 4x2 bisect-side table: theorems pending; correspondence + oracle with endpoints on every step point for all 8 rows.",
+ "C11": "slicer statistics and resample (repaired): theorems pending; correspondence + oracle.",
+ "C12": "minimality of every result (raw step tables compared), identical(), identities, bool: rr_minimal and per-operator minimal theorems exist; canonical/identical theorems pending.",
+ "C13": "mutate-then-observe programs + object identity check; functional model (no sharing by construction): partial.",
+ "C14": "model objects carry the two caches; histories of layer calls and queries; invariant theorem pending.",
+ "C15": "complete shape x side grid; closed rule and mismatch_iff proved for the binary operators (binop_api_err, spec2 closed component); remaining operations by correspondence.",
+ "C16": "programs in several provenance / materialisation / scalar-type variants against one model result; op_respects_deq pending.",
+ "C17": "every program replayed in 7 domain types (int, float, naive datetime, tz-aware fixed/DST/UTC, timedelta) against the one model run; the generic-domain theorems (all of C01, C03-C05 are stated for every Ord D) carry the order-only part.",
+ "C18": "aggregation model (union of step points, right limits, NaN-propagating reduction): theorems pending; correspondence + oracle over every container type.",
+ "C19": "cov / corr (signed square, no sqrt in the model): theorems pending; correspondence + oracle incl. symmetry, cov(f,f)=var, lag equivalence programs.",
+ "C20": "shift / diff / rolling_mean: theorems pending; correspondence + oracle.",
 }
-PENDING = {}
 def main():
     props = [json.loads(l) for l in open(os.path.join(ROOT, "properties.jsonl"))]
     checks, na = [], []
     for p in props:
         pid = p["id"]
-        if pid in CLAIMED:
-            cat, text, ref = CLAIMED[pid]
+        if pid in TEXT:
+            cat, text, ref = LEVELS[pid], TEXT[pid], f"5 ({pid})"
+            if cat == "other":
+                text = "partial proof + correspondence: " + text
             checks.append({
                 "property_id": pid,
                 "quick_cmd": f"./check {pid} --tier quick",
@@ -39,7 +58,7 @@ def main():
         "hooks": {"guard": "STAIRCASE_VERIF_HOOKS", "enable": "no source hooks are needed: everything is observed through the public API of the staircase imported from /repo's working tree (PYTHONPATH=/repo)",
                   "baseline_off_cmd": "cd /repo && /venv/bin/python -m pytest -ra -q -p no:cacheprovider --timeout=900 --continue-on-collection-errors",
                   "source_commits": [], "add_only": True},
-        "engines": [{"name": "coq-model+correspondence", "path": "/verif/coq, /verif/harness", "serves_properties": sorted(CLAIMED),
+        "engines": [{"name": "coq-model+correspondence", "path": "/verif/coq, /verif/harness", "serves_properties": sorted(TEXT),
                      "kind_free_text": "Gallina model + theorems (coq/), correspondence runner (harness/): implementation vs model (vm_compute) vs rational oracle"}],
         "checks": checks,
         "not_applicable": na,
